@@ -48,9 +48,13 @@ def dictSet : Dict → String → Int → Dict
 /-- `d.update(kw)` -/
 def dictUpdate (d kw : Dict) : Dict := kw.foldl (fun d p => dictSet d p.1 p.2) d
 
+/-- value of the LAST pair with key `k` (what a sequence of assignments leaves behind) -/
 def dictGet : Dict → String → Option Int
   | [], _ => none
-  | (k', v') :: r, k => if k' = k then some v' else dictGet r k
+  | (k', v') :: r, k =>
+    match dictGet r k with
+    | some v => some v
+    | none => if k' = k then some v' else none
 
 /-- `self[fname] = self[fname]._replace(default=value)`; `none` = KeyError -/
 def setDefault : List Field → String → Int → Option (List Field)
@@ -145,8 +149,8 @@ def sendBlocks : Nat → List Nat → Nat → List Event × Option Err
       match bootPacket CMD_SEND_BLOCK (((BOOT_WORD_SIZE - 1) <<< 8) ||| block) 0 0 (data.take BOOT_BYTE_SIZE) with
       | none => ([], some .assertWord)
       | some ev =>
-        let (evs, e) := sendBlocks fuel (data.drop BOOT_BYTE_SIZE) (block + 1)
-        (ev :: .sleepBoot :: evs, e)
+        let r := sendBlocks fuel (data.drop BOOT_BYTE_SIZE) (block + 1)
+        (ev :: .sleepBoot :: r.1, r.2)
 
 /-- one struct definition of the struct file -/
 structure StructDef where
@@ -279,6 +283,19 @@ def configOK (c : Call) (opts : Dict) (cfg : List Nat) : Bool :=
   (List.range 128).all (fun i =>
     c.svFields.any (fun f => decide (f.offset ≤ i ∧ i < f.offset + packWidth f.pack)) || cfg[i]? == some 0)
 
+/-- payload of block `i`: bytes `1024 i .. 1024 i + 1023` of the buffer -/
+def payload (buf : List Nat) (i : Nat) : List Nat := (buf.drop (1024 * i)).take 1024
+
+/-- datagram of block `i` when numbering starts at `b`: command 3, arg1 = (255 << 8) | number,
+then the payload with every word byte-swapped -/
+def blockDg (buf : List Nat) (b i : Nat) : List Nat :=
+  headerV 1 3 (255 * 256 + (b + i)) 0 0 ++ swapWords (payload buf i)
+
+/-- the documented datagram sequence for a buffer: start(n-1), blocks 0..n-1, end(1) -/
+def bootDatagrams (buf : List Nat) : List (List Nat) :=
+  headerV 1 1 0 0 ((buf.length + 1023) / 1024 - 1) ::
+    ((List.range ((buf.length + 1023) / 1024)).map (blockDg buf 0) ++ [headerV 1 5 1 0 0])
+
 /-- shape of the datagram sequence: start(n-1), n blocks numbered 0..n-1 of at most 1 KiB, end(1) -/
 def shapeOK (dgs : List (List Nat)) : Bool :=
   match dgs with
@@ -297,12 +314,11 @@ def shapeOK (dgs : List (List Nat)) : Bool :=
 def reassemble (dgs : List (List Nat)) : List Nat :=
   ((dgs.drop 1).dropLast.map (fun b => swapWords (b.drop 18))).flatten
 
-/-- image clause: same length, identical outside bytes 384..511, configuration inside -/
-def imageOK (c : Call) (opts : Dict) (img : List Nat) : Bool :=
+/-- image clause: same length and identical outside bytes 384..511 -/
+def imageOK (c : Call) (img : List Nat) : Bool :=
   img.length == c.image.length &&
   img.take 384 == c.image.take 384 &&
-  img.drop (512) == c.image.drop (512) &&
-  configOK c opts ((img.drop 384).take 128)
+  img.drop 512 == c.image.drop 512
 
 /-- returned struct: the file's fields, in order, with the expected values as defaults -/
 def returnedOK (c : Call) (opts : Dict) (ret : List Field) : Bool :=
@@ -310,7 +326,8 @@ def returnedOK (c : Call) (opts : Dict) (ret : List Field) : Bool :=
 
 /-- the property for one call whose own options are `opts` -/
 def specOK (c : Call) (opts : Dict) (dgs : List (List Nat)) (ret : List Field) : Bool :=
-  shapeOK dgs && imageOK c opts (reassemble dgs) && returnedOK c opts ret
+  shapeOK dgs && imageOK c (reassemble dgs) &&
+  configOK c opts (((reassemble dgs).drop 384).take 128) && returnedOK c opts ret
 
 /-- `v` is representable in a field with pack code `pc` -/
 def valueFits (pc : String) (v : Int) : Bool :=
@@ -325,9 +342,11 @@ def optsValid (c : Call) (opts : Dict) : Bool :=
 
 /-- domain of the property: word-multiple image with a configuration area, below the size limit;
 well-formed struct table; options name fields and fit them -/
+def Call.ImageDomain (c : Call) : Prop :=
+  c.image.length % 4 = 0 ∧ 512 ≤ c.image.length ∧ c.image.length < 32768
+
 def Call.InDomain (c : Call) : Prop :=
-  c.image.length % 4 = 0 ∧ 512 ≤ c.image.length ∧ c.image.length < 32768 ∧
-  tableOK c.svSize c.svFields = true ∧ 128 ≤ c.svSize
+  c.ImageDomain ∧ tableOK c.svSize c.svFields = true ∧ 128 ≤ c.svSize
 
 /-! ### line protocol -/
 open Lean Rig.P
@@ -431,7 +450,7 @@ def specJson (jc : Json) : R Json := do
       let ret ← (← arr jc "returned").mapM fieldOfJson
       let img := reassemble dgs
       pure (Json.mkObj (base ++ [("shape", Json.bool (shapeOK dgs)),
-        ("image", Json.bool (imageOK c opts img)),
+        ("image", Json.bool (imageOK c img)),
         ("config", Json.bool (configOK c opts ((img.drop 384).take 128))),
         ("returned", Json.bool (returnedOK c opts ret)),
         ("all", Json.bool (specOK c opts dgs ret))]))
